@@ -406,15 +406,15 @@ package dmap
 //@   requires #env: dm != nil && e != nil && e.putConfig != nil && dm.s != nil
 //@   requires #durations: 0 <= e.putConfig.PX && 0 <= e.putConfig.PXAT
 //@   ensures #ok: result.1 == nil && result.0 != nil
-//@   ensures #expire_is_not_a_put [C15 C09]: result.0.kind == ite(e.putConfig.OnlyUpdateTTL, "dm.pexpire", "dm.put")
-//@   ensures #condition [C15] internal: cmd.NX == e.putConfig.HasNX && cmd.XX == (e.putConfig.HasXX && !e.putConfig.HasNX)
-//@   ensures #expiry_px [C15] internal: cmd.PX == ite(!e.putConfig.HasEX && e.putConfig.HasPX, e.putConfig.PX / 1000000, 0)
-//@   ensures #expiry_pxat [C15] internal: cmd.PXAT == ite(!e.putConfig.HasEX && !e.putConfig.HasPX && !e.putConfig.HasEXAT && e.putConfig.HasPXAT, e.putConfig.PXAT / 1000000, 0)
-//@   ensures #expiry_ex_value [C15] internal: cmd.EX == ite(e.putConfig.HasEX, float64(e.putConfig.EX) / float64(1000000000), float64(0))
-//@   ensures #expiry_exat_value [C15] internal: cmd.EXAT == ite(!e.putConfig.HasEX && !e.putConfig.HasPX && e.putConfig.HasEXAT, float64(e.putConfig.EXAT) / float64(1000000000), float64(0))
-//@   ensures #expiry_ex [C15] internal: (cmd.EX != 0) ==> e.putConfig.HasEX
-//@   ensures #expiry_exat [C15] internal: (cmd.EXAT != 0) ==> !e.putConfig.HasEX && !e.putConfig.HasPX && e.putConfig.HasEXAT
-//@   ensures #payload [C15] internal: cmd.DMap == e.dmap && cmd.Key == e.key && cmd.Value == e.value
+//@   ensures #expire_is_not_a_put [C15 C09 C08]: result.0.kind == ite(e.putConfig.OnlyUpdateTTL, "dm.pexpire", "dm.put")
+//@   ensures #condition [C15 C08] internal: cmd.NX == e.putConfig.HasNX && cmd.XX == (e.putConfig.HasXX && !e.putConfig.HasNX)
+//@   ensures #expiry_px [C15 C08] internal: cmd.PX == ite(!e.putConfig.HasEX && e.putConfig.HasPX, e.putConfig.PX / 1000000, 0)
+//@   ensures #expiry_pxat [C15 C08] internal: cmd.PXAT == ite(!e.putConfig.HasEX && !e.putConfig.HasPX && !e.putConfig.HasEXAT && e.putConfig.HasPXAT, e.putConfig.PXAT / 1000000, 0)
+//@   ensures #expiry_ex_value [C15 C08] internal: cmd.EX == ite(e.putConfig.HasEX, float64(e.putConfig.EX) / float64(1000000000), float64(0))
+//@   ensures #expiry_exat_value [C15 C08] internal: cmd.EXAT == ite(!e.putConfig.HasEX && !e.putConfig.HasPX && e.putConfig.HasEXAT, float64(e.putConfig.EXAT) / float64(1000000000), float64(0))
+//@   ensures #expiry_ex [C15 C08] internal: (cmd.EX != 0) ==> e.putConfig.HasEX
+//@   ensures #expiry_exat [C15 C08] internal: (cmd.EXAT != 0) ==> !e.putConfig.HasEX && !e.putConfig.HasPX && e.putConfig.HasEXAT
+//@   ensures #payload [C15 C08] internal: cmd.DMap == e.dmap && cmd.Key == e.key && cmd.Value == e.value
 //@   modifies nothing
 
 //@ func (dm *DMap) put(e *env) error
@@ -433,13 +433,13 @@ package dmap
 //@   flag wired 2
 //@   requires #args: len(cmd.Args) >= 1
 //@   requires #parts: s.parts()
-//@   ensures #condition [C15] internal: pc.HasNX == putCmd.NX && pc.HasXX == (putCmd.XX && !putCmd.NX) && !pc.OnlyUpdateTTL
-//@   ensures #expiry_form [C15 C09] internal: pc.HasEX == (putCmd.EX != 0) && pc.HasPX == (putCmd.EX == 0 && putCmd.PX != 0) &&
+//@   ensures #condition [C15 C08] internal: pc.HasNX == putCmd.NX && pc.HasXX == (putCmd.XX && !putCmd.NX) && !pc.OnlyUpdateTTL
+//@   ensures #expiry_form [C15 C09 C08] internal: pc.HasEX == (putCmd.EX != 0) && pc.HasPX == (putCmd.EX == 0 && putCmd.PX != 0) &&
 //@                pc.HasEXAT == (putCmd.EX == 0 && putCmd.PX == 0 && putCmd.EXAT != 0) &&
 //@                pc.HasPXAT == (putCmd.EX == 0 && putCmd.PX == 0 && putCmd.EXAT == 0 && putCmd.PXAT != 0)
-//@   ensures #expiry_ms [C15 C09] internal: (pc.HasPX ==> pc.PX == int64(putCmd.PX * 1000000)) && (pc.HasPXAT ==> pc.PXAT == int64(putCmd.PXAT * 1000000))
-//@   ensures #expiry_seconds [C15 C09] internal: (pc.HasEX ==> pc.EX == int64(putCmd.EX * float64(1000000000))) && (pc.HasEXAT ==> pc.EXAT == int64(putCmd.EXAT * float64(1000000000)))
-//@   ensures #payload [C15] internal: e.dmap == putCmd.DMap && e.key == putCmd.Key && e.value == putCmd.Value && e.putConfig != nil
+//@   ensures #expiry_ms [C15 C09 C08] internal: (pc.HasPX ==> pc.PX == int64(putCmd.PX * 1000000)) && (pc.HasPXAT ==> pc.PXAT == int64(putCmd.PXAT * 1000000))
+//@   ensures #expiry_seconds [C15 C09 C08] internal: (pc.HasEX ==> pc.EX == int64(putCmd.EX * float64(1000000000))) && (pc.HasEXAT ==> pc.EXAT == int64(putCmd.EXAT * float64(1000000000)))
+//@   ensures #payload [C15 C08] internal: e.dmap == putCmd.DMap && e.key == putCmd.Key && e.value == putCmd.Value && e.putConfig != nil
 
 // C05: a DMap cannot be opened below the member-count quorum.
 //@ func (s *Service) NewDMap(name string) (*DMap, error)
